@@ -407,7 +407,9 @@ func c14unusable(kind string, cur *Topo) func(n *Node) []byte {
 			return BulkReply([]byte(txt))
 		}
 	case "garbage":
-		return func(*Node) []byte { return BulkReply([]byte("this is not a cluster nodes reply\nat all \x00\x01\x02\n\n")) }
+		return func(*Node) []byte {
+			return BulkReply([]byte("this is not a cluster nodes reply\nat all \x00\x01\x02\n\n"))
+		}
 	case "two-nodes":
 		return func(n *Node) []byte {
 			t := &Topo{}
@@ -614,6 +616,14 @@ func c14lane(c *Check, rng *rand.Rand, lane, steps int, hooks, mode string) {
 	must(err, "start env")
 	defer env.Close()
 	env.Cl.SetHandler(func(b *BReq) Action { return Action{Reply: ValueReply(b)} })
+	if hooks != "" {
+		// newly discovered nodes answer INFO slowly (below the client's 3 s read timeout)
+		for i, n := range env.Cl.Nodes {
+			if i >= 8 {
+				n.InfoDelay = time.Duration(500+rng.Intn(2200)) * time.Millisecond
+			}
+		}
+	}
 	prevUnusable := ""
 	if firstUnusable {
 		// the very first probe replies are unusable; then the valid description
